@@ -284,6 +284,46 @@ pub fn c13(c: &mut Ctx) {
 
 /// powi accuracy events for the mp checker.
 pub fn emit_c13(e: &mut Emit) {
+    // differential triage of powi against the frozen reference copy (see mon_fn.rs)
+    {
+        let nt = e.budget(2_000_000, 200_000_000);
+        let mut found = 0u64;
+        for _ in 0..nt {
+            let nn = match e.rng.below(4) {
+                0 => e.rng.range(-64, 64) as i32,
+                1 => e.rng.range(-70000, 70000) as i32,
+                _ => {
+                    let b = e.rng.below(31);
+                    let m = (((e.rng.next() >> 33) as i32) >> (30 - b as i32).max(0)).max(2);
+                    if e.rng.coin() { m } else { -m }
+                }
+            };
+            let lim = (880 / (nn.unsigned_abs().max(1) as i64)).max(1);
+            let a = if lim >= 2 { tf_in(&mut e.rng, -lim, lim - 1) } else {
+                let k = e.rng.range(20, 52);
+                let h = 1.0 + pow2(-k) * (e.rng.range(-64, 64) as f64);
+                let sg = e.rng.coin();
+                let (h, l, _) = tf_with_hi(&mut e.rng, if sg { h } else { -h });
+                (h, l)
+            };
+            let r1 = guard(|| t(a).powi(nn));
+            let r2 = guard(|| twofloat_ref::verif_hooks::from_raw(a.0, a.1).powi(nn));
+            let same = match (&r1, &r2) {
+                (Ok(x), Ok(y)) => (x.hi().to_bits() == y.hi().to_bits() || (x.hi().is_nan() && y.hi().is_nan())) && (x.lo().to_bits() == y.lo().to_bits() || (x.lo().is_nan() && y.lo().is_nan())),
+                (Err(_), Err(_)) => true,
+                _ => false,
+            };
+            e.triaged += 1;
+            if !same && found < 5_000 {
+                found += 1;
+                e.triage_diffs += 1;
+                e.ev("powi", &[hx(a.0), hx(a.1), nn as i64 as u64], || {
+                    let r = t(a).powi(nn);
+                    vec![r.hi(), r.lo()]
+                });
+            }
+        }
+    }
     let n = e.budget(300_000, 30_000_000);
     for i in 0..n {
         let b = e.rng.below(31);
